@@ -30,6 +30,14 @@
 (*                               so no behaviour explains this event.      *)
 (*   rh b err                    [inserter] the result handler was called  *)
 (*                               for the executed statement holding rows b *)
+(*   thr                         [inserter] one caller inserted exactly    *)
+(*                               `max` rows into a fresh inserter, nothing *)
+(*                               else was called and the first tick was    *)
+(*                               not due yet: an execution has begun       *)
+(*   threshold-no-flush          same situation, but nothing was executed  *)
+(*                               before the first tick became due (seen in *)
+(*                               three attempts).  Never enabled: reaching *)
+(*                               the size threshold is a trigger.          *)
 (*   xbm bs n drops / xem ...    [metrics] a report reached the writer:    *)
 (*                               set of non-drop tasks (decoded from the   *)
 (*                               aggregated duration), their number as     *)
@@ -103,12 +111,14 @@ EvFStop  == Is("fstop") /\ Ev.n \in fl /\ fl' = fl \ {Ev.n} /\ UNCHANGED <<handl
 EvTick   == Is("tick") /\ UNCHANGED <<fl, handled, avars>> /\ Consume
 EvJump   == Is("jump") /\ UNCHANGED <<fl, handled, avars>> /\ Consume
 EvHang   == Is("hang") /\ FALSE /\ UNCHANGED <<fl, handled, avars>> /\ Consume
+EvThr    == Is("thr") /\ conf.kind = "inserter" /\ begun # {} /\ UNCHANGED <<fl, handled, avars>> /\ Consume
+EvNoFlush == Is("threshold-no-flush") /\ FALSE /\ UNCHANGED <<fl, handled, avars>> /\ Consume
 EvQuiet  == Is("quiesce") /\ Quiet /\ UNCHANGED <<fl, handled, avars>> /\ Consume
 
 Logged ==
   \/ Reset \/ EvAddInv \/ EvAdd \/ EvAddRet \/ EvTake \/ EvXb \/ EvXe \/ EvWInv \/ EvWRet
   \/ EvFInv \/ EvFRet \/ EvFStart \/ EvFStop \/ EvTick \/ EvJump \/ EvQuiet \/ EvHang
-  \/ EvRh \/ EvXbm \/ EvXem
+  \/ EvRh \/ EvXbm \/ EvXem \/ EvThr \/ EvNoFlush
 
 \* public-API kinds: the effect of Add is not observable
 Internal ==
